@@ -16,6 +16,7 @@ def install(I):
     S = I.summaries
     S["etsi.crc.crc:BitCrcCalculator.calculate_checksum"] = crc_calculate
     S["etsi.crc.crc:BitCrcCalculator.verify_checksum"] = lambda *a: NotImplemented
+    S["etsi.crc.crc:bits_create_lookup_table"] = crc_table
     for n in ("log_debug", "log_info", "log_warning", "log_error", "log_exception", "get_logger"):
         S[f"utils.logging_trait:LoggingTrait.{n}"] = lambda *a: None
     S["etsi.fec.hamming_common:HammingCommon.generate"] = code_generate
@@ -26,6 +27,26 @@ def install(I):
     S["etsi.fec.quadratic_residue_16_7_6:QuadraticResidue1676.check"] = code_check
     S["etsi.fec.hamming_common:HammingCommon.check_and_correct"] = code_correct
     S["etsi.fec.hamming_common:HammingCommon.correct_numpy_array"] = code_correct_np
+
+
+def crc_table(I, fi, args, kw, bound_cls):
+    """bits_create_lookup_table(width, polynomial): constant evaluation of the REAL function by the abstract
+    interpreter, memoised per Repo (the function itself is lru_cached); the result is a constant table"""
+    a = list(args) + [kw[k] for k in ("width_bits", "polynomial") if k in kw]
+    if len(a) != 2 or not all(isinstance(x, int) for x in a):
+        return NotImplemented
+    key = ("crc_table", fi.qualname, a[0], a[1])
+    cache = I.repo._cache
+    if key not in cache:
+        saved = I.summaries.pop(fi.qualname)
+        try:
+            t = I.call(fi, a, {})
+        finally:
+            I.summaries[fi.qualname] = saved
+        if not isinstance(t, list) or not all(isinstance(e, ABits) and all(isinstance(b, F) and b.is_const for b in e.items) for e in t):
+            return t
+        cache[key] = [tuple(b.c for b in e.items) for e in t]
+    return [ABits([cbit(x) for x in row], "ba") for row in cache[key]]
 
 
 def _bits_of(fr_interp, v):
